@@ -17,7 +17,7 @@ U.fn(F, 'range_excluding_trivia',
               C('exists|j: int| node_lo(node) <= j < node_hi(node) && !(#[trigger] file_toks(node)[j]).trivia && tr_end(ret) == file_toks(node)[j].end '
                 '&& forall|k: int| j < k < node_hi(node) ==> (#[trigger] file_toks(node)[k]).trivia', 'C17 C18', name='the range ends at the end of the node\'s last non-trivia token'),
               C('tr_start(ret) <= tr_end(ret) <= node_end(node)', name='start <= end, inside the node')],
-     loops={0: dict(invariant=['node_wf(node)', HASTOK, 'ts_val(start) == node_start(node)',
+     loops={0: dict(invariant=['node_wf(node)', HASTOK, C('ts_val(start) == node_start(node)', name='the trimmed range starts where the node starts'),
                                'end_token matches Some(t) ==> tok_file_toks(&t) == file_toks(node) && node_lo(node) <= tok_idx(&t) < node_hi(node) && forall|k: int| tok_idx(&t) < k < node_hi(node) ==> (#[trigger] file_toks(node)[k]).trivia',
                                'end_token is None ==> false'],
                     ensures=[C('false', name='the walk always stops at a non-trivia token of the node: the fall-through to an empty range is unreachable')],
